@@ -549,10 +549,48 @@ Definition newfb_client (w h : Z) (c : client) : client :=
   if cUseNewFB c1 then set_size_state c1 true (cReqChange c1) (cLastErr c1)
   else client_resize c1 w h.     (* see the modelling assumption at setenc_client *)
 
+(* fix_C16_2: the scaled screens are rebuilt for the new framebuffer.  The factor of a scaled client is
+   recovered as the smallest f with oldW/f = sw and oldH/f = sh (the loop of rfbNewFramebuffer) *)
+Fixpoint find_factor (fuel : nat) (f oldW oldH sw sh : Z) : Z :=
+  match fuel with
+  | O => 0
+  | S k => if (Z.quot oldW f =? sw) && (Z.quot oldH f =? sh) then f
+           else find_factor k (f + 1) oldW oldH sw sh
+  end.
+
+Definition rescale_client (w h oldW oldH : Z) (chain : list (Z * Z)) (c : client) : list (Z * Z) * client :=
+  match cScaled c with
+  | None => (chain, c)
+  | Some (sw, sh) =>
+      let f := find_factor (Z.to_nat (Z.max oldW oldH)) 1 oldW oldH sw sh in
+      let unscaled := set_cext c (mkCExt (xDefS (cExt c)) (xDefU (cExt c)) None) in
+      if (f >? 1) && (Z.quot w f >? 0) && (Z.quot h f >? 0) then
+        let nw := Z.quot w f in let nh := Z.quot h f in
+        let is_main := (nw =? w) && (nh =? h) in
+        let in_chain := existsb (fun '(a, b) => (a =? nw) && (b =? nh)) chain in
+        (if is_main || in_chain then chain else (nw, nh) :: chain,
+         set_size_state (set_cext c (mkCExt (xDefS (cExt c)) (xDefU (cExt c))
+                                            (if is_main then None else Some (nw, nh))))
+                        true (cReqChange c) (cLastErr c))
+      else (chain, unscaled)
+  end.
+
+(* the client iterator of the library visits the newest client first; the model keeps the oldest first *)
+Fixpoint rescale_clients (w h oldW oldH : Z) (rev_clients : list client) (chain : list (Z * Z))
+  : list (Z * Z) * list client :=
+  match rev_clients with
+  | [] => (chain, [])
+  | c :: t => let '(ch1, c') := rescale_client w h oldW oldH chain c in
+              let '(ch2, t') := rescale_clients w h oldW oldH t ch1 in
+              (ch2, c' :: t')
+  end.
+
 Definition newfb_state (st : state) (w h bpp seed : Z) : state :=
+  let '(chain, rcl) := rescale_clients w h (sW st) (sH st) (rev (sClients st)) [] in
   mkState w h bpp (sFBid st + 1) (pic_build w h (draw_value bpp seed)) (sCursor st)
           (if sCurX st >=? w then w - 1 else sCurX st) (if sCurY st >=? h then h - 1 else sCurY st)
-          (sMaxRects st) (sSliceH st) (map (newfb_client w h) (sClients st)) (sExt st).
+          (sMaxRects st) (sSliceH st) (map (newfb_client w h) (rev rcl))
+          (mkSExt (xDefer (sExt st)) (xNowS (sExt st)) (xNowU (sExt st)) chain).
 
 (* ------------------------------------------------------------------ SetDesktopSize *)
 Definition setdesktop_one (requester : bool) (hookres : Z) (c : client) : client :=
